@@ -146,7 +146,7 @@ func TestUDPSameSourceFlood(t *testing.T) {
 		return
 	}
 	r.Rule("UDP histories: 2..16 grammar datagrams (count biased around the reply limiter's burst of 4) from ONE source IP - same or distinct source ports, lock-step or back to back - for the services that report before consulting their reply limiter (dns, snmp, counterstrike, memcached with one command line per datagram; not tftp, which limits before decoding); oracle = every datagram's decoded fields in exactly its expected events, whatever its position in the history; non-trivial = more datagrams than the limiter's burst")
-	r.Rapid(t, "TestUDPSameSourceFlood", r.Pick(120, 900), func(rt *rapid.T) {
+	r.Rapid(t, "TestUDPSameSourceFlood", r.Pick(120, 500), func(rt *rapid.T) {
 		service := rapid.SampledFrom(floodServices).Draw(rt, "service")
 		n := rapid.SampledFrom([]int{2, 4, 5, 5, 6, 8, 9, 12, 16}).Draw(rt, "ndgram")
 		c := floodCase{Service: service,
